@@ -780,8 +780,10 @@ func GenProgram(r *Rng, prop string, cfg Config, gp GenParams) *Program {
 				kind = "early"
 			} else if x < 6 && gp.ReopenMid {
 				kind = "mid"
+			} else if x < 8 && gp.ReopenMid {
+				kind = "abort" // Store.CloseEx(Abort) with a round parked in mid-flight
 			}
-			if kind == "mid" {
+			if kind == "mid" || kind == "abort" {
 				add(Step{K: "merge", A: "plain"})
 				add(Step{K: "persist", P: persisterParks[r.Intn(len(persisterParks))]})
 			}
